@@ -18,8 +18,8 @@ PROPS['C19'] = dict(
     harness=['h_int.c', 'h_int_ext.c'],
     # 'clang': the library (and with it the exported copies of the inline functions, which h_int_ext.c calls) compiled by clang 14:
     # compiler-conditional code (__has_builtin, version tests) takes its other arm there (seeded change C19-I)
-    configs=lambda tier: [dict(name='default'), dict(name='clang', libcc='clang', nworkers=4), dict(name='o2', libflavour='san-o2', libdrop=['-fno-strict-aliasing'], nworkers=4)],
-    parallel_configs=3,
+    configs=lambda tier: [dict(name='mt', harness=['h_mt_codec.c'], hflags=['-DVF_MT=19'], flavour='tsan', nworkers=1), dict(name='default'), dict(name='clang', libcc='clang', nworkers=4), dict(name='o2', libflavour='san-o2', libdrop=['-fno-strict-aliasing'], nworkers=4)],
+    parallel_configs=4,
     level='exploration',
     rule='inputs are enumerated (exhaustive ranges, k^2 and k^2+-1, 2^n and 2^n+-1, all pairs <1024) or drawn at random with '
          'uniformly distributed bit length; each is judged by exact integer arithmetic (64/128-bit squares, independent binary gcd, '
